@@ -6,7 +6,7 @@
 wt=$(readlink -f $1); shift
 names="$@"; [ -z "$names" ] && names=$(ls -d /verif/seeded/C*/ | xargs -n1 basename)
 for m in $names; do
-  d=/verif/seeded/$m; pid=${m%%_*}
+  d=/verif/seeded/$m; pid=${HARVEST_PID:-${m%%_*}}  # HARVEST_PID=C08: harvest under another property's check
   ls /verif/regress/$pid/${m}__*.json >/dev/null 2>&1 && continue
   git -C $wt checkout -q -- .
   git -C $wt apply --check $d/patch.diff 2>/dev/null || { echo "$m: patch does not apply"; continue; }
